@@ -350,6 +350,38 @@ func registerStd(e *Engine, simple func(string, func(*Run, []Value) Value)) {
 		return TupleV{r.intTerm(int64(v)), IfaceV{}}
 	})
 
+	// context / timers: redirected to the plain-Go models in verifrt (interpreted)
+	redirect := func(std, model string) {
+		in[std] = func(r *Run, g *Goroutine, fv *FuncV, a []Value, retTo func(Value)) (Value, bool) {
+			fn := r.eng.pkgs[rtPkg].Func(model)
+			if fn == nil {
+				panic(engineErr("model %s not found", model))
+			}
+			r.invoke(g, &FuncV{fn: fn}, a, retTo)
+			return deferredResult{}, true
+		}
+	}
+	redirect("context.WithCancel", "WithCancelModel")
+	redirect("context.WithTimeout", "WithTimeoutModel")
+	redirect("context.WithDeadline", "WithDeadlineModel")
+	redirect("context.WithValue", "WithValueModel")
+	redirect("time.After", "AfterModel")
+	redirect("time.NewTimer", "NewTimerModel")
+	redirect(rtPkg+".Quiesce", "QuiesceModel")
+	simple("(*time.Timer).Stop", func(r *Run, a []Value) Value { return r.ctx.Bool(false) })
+	in[rtPkg+".EngineAfter"] = func(r *Run, g *Goroutine, fv *FuncV, a []Value, retTo func(Value)) (Value, bool) {
+		d := r.concreteInt(a[0], "timer duration")
+		f := a[1].(*FuncV)
+		r.addTimer(d, func() {
+			ng := r.newGoroutine("timer")
+			r.invoke(ng, f, nil, nil)
+			if len(ng.stack) == 0 {
+				ng.finished = true
+			}
+		})
+		return nil, true
+	}
+
 	// time
 	simple("time.Now", func(r *Run, a []Value) Value { return &TimeV{r.ctx.BV(64, uint64(r.now))} })
 	simple("time.Unix", func(r *Run, a []Value) Value {
